@@ -58,6 +58,8 @@ Definition min_cost_success (stk : vstack) (p : nat) (s : list repair) : Prop :=
   first_success stk p s /\
   forall s', first_success stk p s' -> (scost g input costs s p <= scost g input costs s' p)%N.
 
+(* "lets parsing continue as far as the best of them": [far] is the distance capped at p + TRY, the look-ahead
+   of the ranking (RankCapSpec.far_is_capped_distance_stmt) *)
 Definition parses_furthest (TRY : nat) (stk : vstack) (p : nat) (s : list repair) : Prop :=
   forall s', min_cost_success stk p s' ->
              (far g A input ifuel TRY stk p s' <= far g A input ifuel TRY stk p s)%nat.
